@@ -272,10 +272,9 @@ def defKind : Instruction → Bool
 /-- the kinds whose text is a block not ending in a newline -/
 def blockKind (i : Instruction) : Bool := lineKind i || defKind i
 
-/-- the DEFGATE specifications of the proved subset: no empty matrix row; in a SEQUENCE, no qubit variable
+/-- the DEFGATE specifications of the proved subset: all, except that in a SEQUENCE no qubit variable may be
 named like a reserved word (known finding C02/qubit-variable-named-like-keyword) -/
 def gateSpecKind : GateSpecification → Bool
-  | .matrix rows => rows.all fun r => !r.isEmpty
   | .sequence s => s.gates.all fun g => g.qubits.all noPlaceholder
   | _ => true
 
